@@ -233,3 +233,83 @@ theorem decodeAux_eq_parse_exec (fuel : Nat) (inp out : List UInt8) :
                   | some o2 => simp [ih, hp, exec, hc]
 
 end LZ4V.Spec.Block
+
+/-! ## history extension: more history in front never changes a decode -/
+namespace LZ4V.Spec.Block
+
+theorem copyMatch_prefix (pre out : List UInt8) (off n : Nat) (r : List UInt8)
+    (h : copyMatch out off n = some r) : copyMatch (pre ++ out) off n = some (pre ++ r) := by
+  induction n generalizing out with
+  | zero => simp [copyMatch] at h ⊢; exact h
+  | succ n ih =>
+    simp only [copyMatch] at h ⊢
+    by_cases hc : 1 ≤ off ∧ off ≤ out.length
+    · rw [if_pos hc] at h
+      rw [if_pos ⟨hc.1, by simp; omega⟩]
+      have hidx : out.length - off < out.length := by omega
+      rw [List.getElem?_eq_getElem hidx] at h
+      have e : (pre ++ out).length - off = pre.length + (out.length - off) := by simp; omega
+      rw [e, List.getElem?_append_right (by omega)]
+      simp only [Nat.add_sub_cancel_left, List.getElem?_eq_getElem hidx]
+      have := ih (out ++ [out[out.length - off]]) h
+      simpa [List.append_assoc] using this
+    · rw [if_neg hc] at h; simp at h
+
+/-- a block that decodes with history `out` decodes to the same content with any longer history `pre ++ out` -/
+theorem decodeAux_prefix (fuel : Nat) (inp pre out r : List UInt8)
+    (h : decodeAux fuel inp out = some r) : decodeAux fuel inp (pre ++ out) = some (pre ++ r) := by
+  induction fuel generalizing inp out with
+  | zero => simp [decodeAux] at h
+  | succ f ih =>
+    cases inp with
+    | nil => simp [decodeAux] at h
+    | cons tok inp =>
+      simp only [decodeAux] at h ⊢
+      cases h1 : readField (tok.toNat / 16) inp with
+      | none => rw [h1] at h; simp at h
+      | some r1 =>
+        obtain ⟨ll, inp1⟩ := r1
+        rw [h1] at h
+        dsimp only at h ⊢
+        by_cases hgt : ll > inp1.length
+        · rw [if_pos hgt] at h; simp at h
+        · rw [if_neg hgt] at h ⊢
+          cases h2 : inp1.drop ll with
+          | nil => rw [h2] at h; dsimp only at h ⊢; simp at h ⊢; rw [← h]
+          | cons lo t =>
+            cases t with
+            | nil => rw [h2] at h; simp at h
+            | cons hi inp3 =>
+              rw [h2] at h
+              dsimp only at h ⊢
+              cases h3 : readField (tok.toNat % 16) inp3 with
+              | none => rw [h3] at h; simp at h
+              | some r3 =>
+                obtain ⟨mlc, inp4⟩ := r3
+                rw [h3] at h
+                dsimp only at h ⊢
+                cases hc : copyMatch (out ++ List.take ll inp1) (lo.toNat + 256 * hi.toNat) (mlc + 4) with
+                | none => rw [hc] at h; simp at h
+                | some o2 =>
+                  rw [hc] at h
+                  dsimp only at h
+                  have hcp := copyMatch_prefix pre _ _ _ _ hc
+                  rw [List.append_assoc, hcp]
+                  dsimp only
+                  exact ih _ _ h
+
+/-- **history superset**: whatever longer history the decoder holds (contiguous prefix, ring buffer, explicit
+    dictionary — any means), the block decodes to the same content -/
+theorem decode_history_superset (pre hist blk D : List UInt8) (h : decode hist blk = some D) :
+    decode (pre ++ hist) blk = some D := by
+  unfold decode at h ⊢
+  cases hd : decodeAux (blk.length + 1) blk hist with
+  | none => rw [hd] at h; simp at h
+  | some r =>
+    rw [hd] at h
+    rw [decodeAux_prefix _ _ pre _ _ hd]
+    simp only [Option.map_some, Option.some.injEq] at h ⊢
+    rw [← h, List.length_append, List.drop_append]
+    simp [List.drop_length]
+
+end LZ4V.Spec.Block
